@@ -96,6 +96,20 @@ func execPlan(t *testing.T, plan *Plan, keepLog bool) (*RunResult, []string) {
 		// ... unless the system under test is the queue alone (no application callbacks, no
 		// transport, nothing of the harness takes a lock there) and a goroutine of the bubble sits in
 		// Mutex.Lock inside rpc_queue.go: a lock that is never released is the queue's doing
+		if plan.Prop == "C14" {
+			// C14: a call that sits in Mutex.Lock / RWMutex.(R)Lock inside the library for 30 s of
+			// real time waits for a lock nobody will release: it never returns (in a bubble a
+			// goroutine blocked on a mutex keeps virtual time from advancing, hence the hang)
+			for _, file := range []string{"topic.go", "subscription.go", "pubsub.go", "tracer.go", "discovery.go", "comm.go", "validation.go", "gossipsub.go"} {
+				if fn := mutexBlockedIn(file); fn != "" {
+					bo.res.Panic = ""
+					bo.res.Violations = []Violation{{Property: "C14", Invariant: "returns", Signature: "C14/call-blocked/mutex-never-released/" + fn,
+						Detail: "the run did not finish: a goroutine has been blocked in a mutex Lock called from " + fn + " (" + file + ") for 30 s of real time; whoever held the lock has gone without releasing it"}}
+					bo.res.Plan = plan
+					break
+				}
+			}
+		}
 		if plan.World == "queue" {
 			if fn := mutexBlockedIn("rpc_queue.go"); fn != "" {
 				bo.res.Panic = ""
@@ -267,7 +281,7 @@ func mutexBlockedIn(file string) string {
 	buf := make([]byte, 4<<20)
 	buf = buf[:runtime.Stack(buf, true)]
 	for _, g := range strings.Split(string(buf), "\n\n") {
-		if !strings.Contains(g, "sync.(*Mutex).Lock") {
+		if !strings.Contains(g, "sync.(*Mutex).Lock") && !strings.Contains(g, "sync.(*RWMutex).Lock") && !strings.Contains(g, "sync.(*RWMutex).RLock") {
 			continue
 		}
 		lines := strings.Split(g, "\n")
